@@ -198,6 +198,137 @@ def ties_project(rng, scale=1):
     return files
 
 
+# ----------------------------------------------------------------------------------------------
+# LARGE functions: families of near-identical functions whose LSH feature sets (structural subtree hashes, 4-grams of
+# node labels) are big. Whatever the MinHash / LSH stage does with a big feature set must not vary between runs.
+# ----------------------------------------------------------------------------------------------
+_BINOPS = ["+", "-", "*", "//", "%", "&", "|", "^", "<<", "**"]
+_CMPOPS = ["<", ">", "==", "!=", "<=", ">=", "in", "not in", "is", "is not"]
+
+
+def _expr(rng, depth, names):
+    """A random expression; the SHAPE (not the names / constants) is what the feature extractor sees."""
+    if depth <= 0:
+        return rng.choice([rng.choice(names), str(rng.randint(0, 99)), rng.choice(names), '"s%d"' % rng.randint(0, 9)])
+    sub = lambda: _expr(rng, depth - rng.randint(1, 2), names)
+    k = rng.randrange(14)
+    if k == 0:
+        return "(%s %s %s)" % (sub(), rng.choice(_BINOPS), sub())
+    if k == 1:
+        return "%s(%s)" % (rng.choice(["len", "abs", "str", "int", "max", "sum"]), ", ".join(sub() for _ in range(rng.randint(1, 3))))
+    if k == 2:
+        return "%s[%s]" % (rng.choice(names), sub())
+    if k == 3:
+        return "%s.%s" % (rng.choice(names), rng.choice(["real", "imag", "count", "index"]))
+    if k == 4:
+        return "(%s %s %s)" % (sub(), rng.choice(_CMPOPS), sub())
+    if k == 5:
+        return "(%s %s %s)" % (sub(), rng.choice(["and", "or"]), sub())
+    if k == 6:
+        return "(not %s)" % sub()
+    if k == 7:
+        return "[%s]" % ", ".join(sub() for _ in range(rng.randint(0, 3)))
+    if k == 8:
+        return "(%s if %s else %s)" % (sub(), sub(), sub())
+    if k == 9:
+        return "{%s: %s}" % (sub(), sub())
+    if k == 10:
+        return "(%s, %s)" % (sub(), sub())
+    if k == 11:
+        return "[%s for q in %s if %s]" % (sub(), rng.choice(names), sub())
+    if k == 12:
+        return "%s.%s(%s)" % (rng.choice(names), rng.choice(["get", "append", "pop", "find"]), sub())
+    return "(-%s)" % sub()
+
+
+def _stmts(rng, names, budget, indent, depth):
+    """About `budget` lines of random statements at the given indent."""
+    out = []
+    pad = "    " * indent
+    while budget > 0:
+        k = rng.randrange(12) if depth > 0 and budget >= 4 else rng.randrange(5)
+        e = lambda d=2: _expr(rng, d, names)
+        if k == 0:
+            out.append("%s%s = %s" % (pad, rng.choice(names), e(3)))
+        elif k == 1:
+            out.append("%s%s %s= %s" % (pad, rng.choice(names), rng.choice(["+", "-", "*"]), e()))
+        elif k == 2:
+            out.append("%s%s" % (pad, e(3)))
+        elif k == 3:
+            out.append("%s%s[%s] = %s" % (pad, rng.choice(names), e(1), e()))
+        elif k == 4:
+            out.append("%s%s, %s = %s, %s" % (pad, rng.choice(names), rng.choice(names), e(1), e()))
+        else:
+            inner = rng.randint(1, min(4, budget - 1))
+            body = _stmts(rng, names, inner, indent + 1, depth - 1)
+            if k in (5, 6):
+                out.append("%sif %s:" % (pad, e()))
+                out += body
+                if rng.random() < 0.5:
+                    out.append("%s%s:" % (pad, rng.choice(["else", "elif %s" % e(1)])))
+                    out += _stmts(rng, names, 1, indent + 1, 0)
+                    budget -= 2
+            elif k == 7:
+                out.append("%sfor %s in %s:" % (pad, rng.choice(names), e()))
+                out += body
+            elif k == 8:
+                out.append("%swhile %s:" % (pad, e()))
+                out += body + ["%s    break" % pad]
+                budget -= 1
+            elif k == 9:
+                out.append("%stry:" % pad)
+                out += body
+                out.append("%sexcept %s:" % (pad, rng.choice(["KeyError", "ValueError", "(TypeError, OSError)"])))
+                out += _stmts(rng, names, 1, indent + 1, 0)
+                budget -= 2
+            elif k == 10:
+                out.append("%swith %s as %s:" % (pad, e(1), rng.choice(names)))
+                out += body
+            else:
+                out.append("%sif %s:" % (pad, e(1)))
+                out.append("%s    %s" % (pad, rng.choice(["return %s" % e(1), "raise ValueError(%s)" % e(1), "pass", "assert %s" % e(1)])))
+                inner = 1
+            budget -= inner
+        budget -= 1
+    return out
+
+
+_RENAME = [("alpha", "first"), ("beta", "second"), ("gamma", "third")]
+
+
+def big_family(rng, fam, lines, variants):
+    """`variants` near-identical functions of about `lines` lines: variant 0 is the template, the others rename one identifier,
+    change literals and (from variant 2 on) replace one statement - Type-1/2/3 clones of one another. Returns [(name, text)]."""
+    names = ["alpha", "beta", "gamma", "delta", "omega", "kappa"]
+    body = _stmts(rng, names, lines - 2, 1, 2)
+    out = []
+    for v in range(variants):
+        b = list(body)
+        if v >= 1:
+            old, new = _RENAME[(v - 1) % len(_RENAME)]
+            b = [re.sub(r"\b%s\b" % old, new, ln) for ln in b]
+            b = [re.sub(r"\b(\d+)\b", lambda m: str((int(m.group(1)) + v) % 100), ln) if i % 7 == v else ln for i, ln in enumerate(b)]
+        if v >= 2:
+            flat = [i for i, ln in enumerate(b) if ln.startswith("    ") and not ln.startswith("     ") and not ln.rstrip().endswith(":")]
+            if flat:
+                b[flat[(v * 5) % len(flat)]] = "    omega = kappa"
+        nm = "big_%s_%d" % (fam, v)
+        args = list(names)
+        if v >= 1:
+            args = [new if a == old else a for a in args]
+        out.append((nm, "def %s(%s):\n%s\n    return %s\n" % (nm, ", ".join(args), "\n".join(b), args[0])))
+    return out
+
+
+def big_project(rng, families):
+    """families: list of (lines, variants). One file per function (as many files as functions keeps every fragment apart)."""
+    files = {}
+    for f, (lines, variants) in enumerate(families):
+        for nm, text in big_family(rng, "f%02d" % f, lines, variants):
+            files["%s.py" % nm] = text
+    return files
+
+
 def write_project(files, d):
     shutil.rmtree(d, ignore_errors=True)
     os.makedirs(d)
